@@ -831,7 +831,7 @@ def run(ctx):
     # (1) TLC: whole-history configuration per transport, mutants, last-operation graphs
     maxops = 3 if quick else 4
     envs = [(tr, 'life') for tr in TRANSPORTS] + [(tr, 'await') for tr in AWAIT_TRANSPORTS]
-    carry = 1 if quick else 2
+    carry = 2 if quick else 3
     with ThreadPool(3) as tp:
         # the environment configurations: graphs to walk, whole histories, the model's own mutants
         egraphs_a = tp.map_async(lambda e: env_graph(ctx, e[0], e[1], carry), envs)
